@@ -256,7 +256,9 @@ def finish(ctx, level_keys=None):
           "assumptions": ctx.assumptions, "wall_s": round(time.time() - ctx.t0, 2), "violations": len(unknown)}
     # evidence/ describes /repo itself; runs against another tree (VERIF_REPO, used for
     # mutants and seeded changes) must not overwrite it
-    edir = os.path.join(ROOT, "evidence") if REPO == "/repo" else os.path.join(ROOT, ".work", "evidence_other_tree")
+    # (nor must a --replay of a single case)
+    plain_run = REPO == "/repo" and not ctx.replay_case
+    edir = os.path.join(ROOT, "evidence") if plain_run else os.path.join(ROOT, ".work", "evidence_other_tree")
     os.makedirs(edir, exist_ok=True)
     with open(os.path.join(edir, "%s.json" % ctx.pid), "w") as f:
         json.dump(ev, f, indent=1, default=str)
